@@ -32,6 +32,13 @@ def _test(pat: ast.pattern, subj: ast.expr, binds: list) -> Optional[ast.expr]:
     if isinstance(pat, ast.MatchValue):
         return ast.Compare(subj, [ast.Eq()], [pat.value])
     if isinstance(pat, ast.MatchSingleton):
+        if isinstance(pat.value, bool) and isinstance(subj, ast.Compare):
+            # a comparison evaluates to True or False: `case False` on it is its negation, `case True` the comparison itself
+            if pat.value:
+                return subj
+            if len(subj.ops) == 1 and isinstance(subj.ops[0], (ast.In, ast.NotIn)):
+                return ast.Compare(subj.left, [ast.NotIn() if isinstance(subj.ops[0], ast.In) else ast.In()], subj.comparators)
+            return ast.UnaryOp(ast.Not(), subj)
         return ast.Compare(subj, [ast.Is()], [ast.Constant(pat.value)])
     if isinstance(pat, ast.MatchClass):
         if pat.patterns or pat.kwd_patterns:
@@ -87,7 +94,9 @@ class MatchDesugar(ast.NodeTransformer):
         self.generic_visit(node)
         pre: list[ast.stmt] = []
         subj = node.subject
-        simple_tuple = isinstance(subj, ast.Tuple) and all(_simple(e) for e in subj.elts)
+        # elements without calls / awaits / bindings are evaluated where the pattern tests them, each at most once per case here
+        simple_tuple = isinstance(subj, ast.Tuple) and all(
+            _simple(e) or not any(isinstance(x, (ast.Call, ast.Await, ast.NamedExpr, ast.Yield, ast.YieldFrom, ast.Lambda)) for x in ast.walk(e)) for e in subj.elts)
         if not (_simple(subj) or simple_tuple):
             tmp = f'__match{next(_n)}'
             pre.append(ast.copy_location(ast.Assign([ast.Name(tmp, ast.Store())], subj, lineno=node.lineno), node))
@@ -97,10 +106,20 @@ class MatchDesugar(ast.NodeTransformer):
             for case in node.cases:
                 binds: list = []
                 t = _test(case.pattern, subj, binds)
+                if case.guard is not None and binds:
+                    # `case P(x) if g(x): B` as the LAST case: nothing is tried after a failed guard, so it is
+                    # `if P: x = ..; if g(x): B` (the capture is bound before the guard, as the language does)
+                    if case is not node.cases[-1]:
+                        raise ValueError('guard with captures, further cases follow')
+                    bs = [ast.copy_location(ast.Assign([ast.Name(n_, ast.Store())], s_, lineno=case.body[0].lineno), case.body[0]) for n_, s_ in binds]
+                    inner_if = ast.copy_location(ast.If(case.guard, case.body, []), case.body[0])
+                    if t is None:
+                        branches.append((None, bs + [inner_if]))
+                    else:
+                        branches.append((t, bs + [inner_if]))
+                    continue
                 if case.guard is not None:
                     t = case.guard if t is None else ast.BoolOp(ast.And(), [t, case.guard])
-                    if binds:
-                        raise ValueError('guard with captures')
                 body = [ast.copy_location(ast.Assign([ast.Name(n_, ast.Store())], s_, lineno=case.body[0].lineno), case.body[0]) for n_, s_ in binds] + case.body
                 branches.append((t, body))
         except ValueError:
